@@ -1,6 +1,7 @@
 
 (define-library (srfi 113)
-  (import (scheme base) (srfi 1) (srfi 125) (srfi 128))
+  (import (scheme base) (srfi 1) (srfi 125) (srfi 128)
+          (only (srfi 69) hash-table-cell))
   (export
    ;;;;;;;;;;;;;; Sets
    ;; Constructors:
